@@ -62,3 +62,9 @@ Print Assumptions C20_per_task.
 Print Assumptions C20_per_pair.
 Print Assumptions C20_unknown_mode_rejected.
 Print Assumptions C20_plan_complete.
+
+(* state shared between objects (regenerated scan of the whole package: memoising decorators, mutable class attributes of non-pydantic classes, module-level
+   containers mutated by functions): there is none - a Multitask object is its own object: no result table shared between instances *)
+Theorem C20_no_shared_mutable_state : gen_no_shared_mutable_state = true.
+Proof. reflexivity. Qed.
+Print Assumptions C20_no_shared_mutable_state.
